@@ -48,14 +48,19 @@ def genNN (s : SchemaD) (mode : Nat) : Ty → Nat → RVal
   | .nonNull t, h => genNN s mode t h
   | .list t, h =>
     if mode == 1 && mix h 0 % 16 == 7 then .leaf (.num 5)
-    else .list ((List.range (mix h 1 % 4)).map fun i => genVal s mode t (mix h (2 + i)))
+    else
+      let items := (List.range (mix h 1 % 4)).map fun i => genVal s mode t (mix h (2 + i))
+      -- a lazy iterable that raises ResolverError after yielding its items
+      if mix h 9 % 16 == 9 then .raise items ("R" ++ toString (h % 1000)) none else .list items
   | .named n, h =>
     let kind : Option Kind := (s.findType n).map (·.kind)
     match kind with
     | some .object => .obj n
     | some .interface | some .union =>
       let a := mix h 0 % 4
-      if mode == 1 && a == 2 then .obj (s.query.getD "Query")
+      -- `resolve_type` raises ResolverError
+      if mix h 9 % 16 == 9 then .raise [] ("T" ++ toString (h % 1000)) none
+      else if mode == 1 && a == 2 then .obj (s.query.getD "Query")
       else if mode == 1 && a == 1 && mix h 3 % 4 == 0 then .obj "Nope__"
       else
         let poss := possibleTypes s n
